@@ -444,6 +444,57 @@ func tickerScenario(r *R) {
 		r.Violate("C20", "ticker/tick-after-stop", "a tick stamped %v arrived after Stop had returned at %v and the buffered tick had been drained", stamp(ts), stopRetAt)
 	default:
 	}
+	if r.Failed() || r.Choose(3, "restart") != 2 {
+		return
+	}
+	// a later phase of the same ticker: Reset after Stop starts it again, under the same rules
+	r.Probe("ticker-restarted-after-stop")
+	d, j = pick()
+	resetInv := sim.Now()
+	if !safely("Reset", func() { tk.Reset(d, j) }) {
+		return
+	}
+	strict := r.Cfg.StallPer1k == 0 && r.Cfg.LatePer1k == 0
+	last := resetInv
+	for k := 0; k < 3; k++ {
+		t := sim.Pre("restart-recv")
+		sim.BeginOp(t)
+		tm := stdtime.NewTimer(stdtime.Duration(2*(d+j)) + 5*stdtime.Second)
+		select {
+		case ts := <-tk.C:
+			tm.Stop()
+			sim.EndOp(t)
+			if gap := stamp(ts) - last; gap < d-j {
+				r.Violate("C20", "ticker/ticks-too-close/after-restart", "after Stop and Reset(d=%v, jitter=%v) a tick came %v after the previous event; at least d-jitter = %v is required", d, j, gap, d-j)
+				return
+			}
+			last = stamp(ts)
+		case <-tm.C:
+			sim.EndOp(t)
+			r.Violate("C20", "ticker/no-tick-after-restart", "no tick within %v of Reset(d=%v, jitter=%v) on a stopped ticker", 2*(d+j)+5*time.Second, d, j)
+			return
+		case <-sim.KillC(t):
+			tm.Stop()
+			sim.Die()
+		}
+	}
+	_ = strict
+	tk.Stop()
+	stop2 := sim.Now()
+	select {
+	case ts := <-tk.C:
+		if stamp(ts) > stop2 {
+			r.Violate("C20", "ticker/tick-after-stop", "after the restart: a buffered tick stamped %v was sent after the second Stop had returned at %v", stamp(ts), stop2)
+			return
+		}
+	default:
+	}
+	sim.Sleep(20*(d+j)+time.Second, "main-watch-2")
+	select {
+	case ts := <-tk.C:
+		r.Violate("C20", "ticker/tick-after-stop", "after the restart: a tick stamped %v arrived after the second Stop had returned at %v", stamp(ts), stop2)
+	default:
+	}
 	_ = fmt.Sprint
 	_ = context.Background
 }
